@@ -57,7 +57,11 @@ def main():
     ap.add_argument("--jobs", type=int, default=2)
     ap.add_argument("--seeded", action="store_true", help="also run /verif/seeded/*/patch.diff")
     ap.add_argument("--out")
+    ap.add_argument("--only-seeded", action="store_true", help="run the seeded changes only (no mutants)")
+    ap.add_argument("--update-meta", action="store_true", help="record the verdict in seeded/<id>/meta.json (steps.final_check)")
     a = ap.parse_args()
+    if a.only_seeded:
+        a.seeded = True
     work = []
     if a.patch:
         for p in a.patch:
@@ -66,7 +70,7 @@ def main():
     else:
         for p in sorted(glob.glob(os.path.join(VERIF, "mutants", "*.patch"))):
             prop = os.path.basename(p).split("-")[0]
-            if not a.props or prop in a.props:
+            if (not a.props or prop in a.props) and not a.only_seeded:
                 work.append((p, prop))
         if a.seeded:
             for d in sorted(glob.glob(os.path.join(VERIF, "seeded", "*"))):
@@ -89,6 +93,14 @@ def main():
                 bad += 1
             print("%-8s %-60s %-12s %5.1fs %s %s" % (r["prop"], os.path.relpath(r["patch"], VERIF), r["status"], r["wall"], "" if ok else "<-- expected " + expect, r["detail"][:160]), flush=True)
             results.append(r)
+            if a.update_meta and os.path.basename(r["patch"]) == "patch.diff":
+                mp = os.path.join(os.path.dirname(r["patch"]), "meta.json")
+                try:
+                    m = json.load(open(mp))
+                    m.setdefault("steps", {})["final_check"] = dict(status=r["status"], wall_s=r["wall"], detail=r["detail"][:400], tier=a.tier, when=time.strftime("%Y-%m-%d %H:%M:%S"))
+                    json.dump(m, open(mp, "w"), indent=1)
+                except (OSError, ValueError):
+                    pass
     if a.out:
         json.dump(results, open(a.out, "w"), indent=1)
     return 1 if bad else 0
